@@ -33,10 +33,11 @@ def recordOf (H : String → String) : List String → Option Record
   | [u, p, m] => some ⟨H u, p, if m = "" then defaultMountPoint else m⟩
   | _ => none
 
-/-- stable insertion sort by user hash = sort.SliceStable(out, less-by-UsernameHash) -/
+/-- stable insertion sort by user hash = sort.SliceStable(out, less-by-UsernameHash): folding from the right,
+    an element goes in front of the elements it is not greater than, so equal keys keep their order -/
 def insertByUser (r : Record) : List Record → List Record
   | [] => [r]
-  | x :: rest => if r.userHash < x.userHash then r :: x :: rest else x :: insertByUser r rest
+  | x :: rest => if r.userHash ≤ x.userHash then r :: x :: rest else x :: insertByUser r rest
 
 def sortByUser (l : List Record) : List Record := l.foldr insertByUser []
 
